@@ -787,7 +787,7 @@ class AbsExpression(FunctionExpression):
         return "abs"
 
     def operate(self, value: NumberType) -> NumberType:
-        return np.absolute(value)
+        return abs(value)
 
 
 class SgnExpression(FunctionExpression):
